@@ -99,6 +99,9 @@ func TestC11(t *testing.T) {
 		default:
 			d = hessian.NewDecoder(nil, tm)
 		}
+		// one reader object whose content is replaced between one-shot ReadFrom calls
+		// (the pooled usage of the repository's own benchmark)
+		shared := &countingReader{}
 		var hist []string
 		kinds := map[string]bool{}
 		lastType := ""
@@ -172,10 +175,17 @@ func TestC11(t *testing.T) {
 				case act == 2: // one-shot decode of valid bytes
 					vi := pickV()
 					in := append([]byte{}, enc[vi]...)
-					switch kind {
-					case "Serializer":
+					viaShared := rapid.Bool().Draw(rt, "viaSharedReader")
+					switch {
+					case kind == "Serializer" && viaShared:
+						shared.b, shared.pos = in, 0
+						ser.ReadFrom(shared)
+					case kind == "Serializer":
 						ser.ToObject(in)
-					case "Decoder":
+					case kind == "Decoder" && viaShared:
+						shared.b, shared.pos = in, 0
+						d.ReadFrom(shared)
+					case kind == "Decoder":
 						d.Decode(in)
 					default:
 						return
@@ -312,9 +322,17 @@ func TestC11(t *testing.T) {
 			}
 		}
 		if kind != "Encoder" {
-			if kind == "Serializer" {
+			probeShared := rapid.Bool().Draw(rt, "probeViaSharedReader")
+			switch {
+			case kind == "Serializer" && probeShared:
+				shared.b, shared.pos = q, 0
+				used = probeDec(func() (interface{}, error) { return ser.ReadFrom(shared) })
+			case kind == "Serializer":
 				used = probeDec(func() (interface{}, error) { return ser.ToObject(q) })
-			} else {
+			case probeShared:
+				shared.b, shared.pos = q, 0
+				used = probeDec(func() (interface{}, error) { return d.ReadFrom(shared) })
+			default:
 				used = probeDec(func() (interface{}, error) { return d.Decode(q) })
 			}
 			fresh = probeDec(func() (interface{}, error) { return hessian.NewSerializer(tm, nm).ToObject(q) })
